@@ -196,6 +196,26 @@ def sg_check(ctx, c, outs):
         missing = [m.round(3).tolist() for m in cart if not subset(m[None], M, 1e-8)][:1]
         return (f"space group {n} (phase built by '{c.get('how', 'init')}'): point group '{ph.point_group.name}' is not the set "
                 f"of rotational parts in the phase frame; e.g. rotational part {missing} is not in the point group")
+    if how == "init":
+        # get_point_group(n) is the group the phase gets; its `proper` flag (orix: the purely rotational group of the same
+        # Laue class, e.g. 422 for -42m - NOT the proper subgroup) must not depend on how the truth value is spelt
+        # (literal, numpy bool as returned by Symmetry.is_proper, integer)
+        from orix.quaternion.symmetry import get_point_group
+        with warnings.catch_warnings():
+            warnings.simplefilter("ignore")
+            full = cart_ops(get_point_group(n))
+            if not set_eq(full, M, 1e-8):
+                return f"get_point_group({n}) is not the point group of Phase(space_group={n})"
+            ref = {True: cart_ops(get_point_group(n, proper=True)), False: cart_ops(get_point_group(n, proper=False))}
+            if not set_eq(ref[False], full, 1e-8):
+                return f"get_point_group({n}, proper=False) is not get_point_group({n})"
+            if any(np.linalg.det(m) < 0 for m in ref[True]):
+                return f"get_point_group({n}, proper=True) contains improper operations"
+            for flag in (np.bool_(True), 1, np.bool_(False), 0):
+                got = cart_ops(get_point_group(n, proper=flag))
+                if not set_eq(got, ref[bool(flag)], 1e-8):
+                    return (f"get_point_group({n}, proper={flag!r}) has {len(got)} operations but proper={bool(flag)} gives "
+                            f"{len(ref[bool(flag)])}: the result depends on how the truth value is spelt")
     return None
 
 
